@@ -186,18 +186,41 @@ Ltac field_setup f H :=
   destruct (wf_field_parts f H) as (Hs & Hw & Hl & Hm & Hr & Hp);
   pose proof (rt_field_flags_resolved f H) as Hfl; cbv zeta in Hfl.
 
-(* case analysis on every N comparison in sight *)
-Ltac eqb_cases :=
+(* ---- proof automation: split on the label, then on the few type numbers that matter, then treat the
+   remaining comparisons (on resolved feature values) as opaque booleans and split on those ---- *)
+Ltac finish := cbn [andb orb negb] in *; try reflexivity; try discriminate; try congruence.
+
+Ltac split_eqb x k :=
+  let E := fresh "E" in
+  destruct (x =? k) eqn:E; [apply N.eqb_eq in E; try subst x | ].
+
+Ltac label_cases lab Hl :=
+  unfold LABEL_OPTIONAL, LABEL_REQUIRED, LABEL_REPEATED in Hl;
+  let E := fresh "E" in
+  destruct (lab =? 1) eqn:E; [apply N.eqb_eq in E; subst lab |
+    clear E; destruct (lab =? 2) eqn:E; [apply N.eqb_eq in E; subst lab |
+      clear E; destruct (lab =? 3) eqn:E; [apply N.eqb_eq in E; subst lab | discriminate Hl]]].
+
+(* after the constants are substituted, every remaining comparison is made an opaque boolean *)
+Ltac opaque_eqb :=
   repeat match goal with
   | |- context [ (?a =? ?b) ] =>
-      let E := fresh "E" in destruct (a =? b) eqn:E;
-      [apply N.eqb_eq in E | apply N.eqb_neq in E]
-  | HH : context [ (?a =? ?b) ] |- _ =>
-      let E := fresh "E" in destruct (a =? b) eqn:E;
-      [apply N.eqb_eq in E | apply N.eqb_neq in E]
+      let v := fresh "b" in set (v := (a =? b)) in *; clearbody v
   end.
 
-Ltac finish := cbn [andb orb negb] in *; try reflexivity; try discriminate; try congruence; try lia.
+Ltac opaque_ed :=
+  repeat match goal with
+  | |- context [ is_editions ?e ] => let v := fresh "ed" in set (v := is_editions e) in *; clearbody v
+  | HH : context [ is_editions ?e ] |- _ => let v := fresh "ed" in set (v := is_editions e) in *; clearbody v
+  end.
+
+Ltac clear_unused_bools := repeat match goal with v : bool |- _ => clear v end.
+
+Ltac bool_cases :=
+  opaque_ed; clear_unused_bools;
+  repeat match goal with
+  | v : bool |- _ => destruct v; cbn [andb orb negb] in *; try discriminate; try reflexivity
+  end.
 
 Lemma fl_legacy : forall f, wf_field f = true ->
   IsLegacyRequired (rt_field_flags f) = (f_resolve f FieldPresence =? FP_LEGACY_REQUIRED).
@@ -225,39 +248,63 @@ Proof.
   intros f He. unfold f_resolve. rewrite !(p23_resolve _ _ _ He). apply p23_defaults. exact He.
 Qed.
 
-Ltac field_facts f H :=
-  let Hs := fresh "Hs" in let Hw := fresh "Hw" in let Hl := fresh "Hl" in
-  let Hm := fresh "Hm" in let Hr := fresh "Hr" in let Hp := fresh "Hp" in
-  destruct (wf_field_parts f H) as (Hs & Hw & Hl & Hm & Hr & Hp);
-  pose proof (fl_legacy f H) as FL; pose proof (fl_presence f H) as FP;
-  pose proof (fl_delimited f H) as FD; pose proof (fl_packed f H) as FK.
+(* The facts about a well-formed field that the attribute proofs use, with the field taken apart:
+   LR = presence resolves to LEGACY_REQUIRED, EX = to EXPLICIT, DL = message encoding resolves to DELIMITED. *)
+Lemma field_facts : forall f, wf_field f = true ->
+  let LR := (f_resolve f FieldPresence =? FP_LEGACY_REQUIRED) in
+  let EX := (f_resolve f FieldPresence =? FP_EXPLICIT) in
+  let DL := (f_resolve f MessageEncoding =? ME_DELIMITED) in
+  IsLegacyRequired (rt_field_flags f) = LR /\
+  IsFieldPresence (rt_field_flags f) = (LR || EX) /\
+  IsDelimitedEncoded (rt_field_flags f) = DL /\
+  IsPacked (rt_field_flags f) =
+    match f_packed f with Some b => b | None => f_resolve f RepeatedFieldEncoding =? RFE_PACKED end /\
+  ((f_label f =? LABEL_OPTIONAL) || (f_label f =? LABEL_REQUIRED) || (f_label f =? LABEL_REPEATED)) = true /\
+  (negb (f_msg_mapentry f) || ((f_type f =? TYPE_MESSAGE) && (f_label f =? LABEL_REPEATED) && negb (f_is_ext f))) = true /\
+  (negb ((f_label f =? LABEL_REPEATED) || f_is_ext f) || negb LR) = true /\
+  (negb (f_p3opt f) || (f_label f =? LABEL_OPTIONAL)) = true /\
+  (is_editions (f_edition f) || (negb LR && negb DL)) = true.
+Proof.
+  intros f H. cbv zeta.
+  destruct (wf_field_parts f H) as (Hs & Hw & Hl & Hm & Hr & Hp).
+  rewrite (fl_legacy f H), (fl_presence f H), (fl_delimited f H), (fl_packed f H).
+  repeat split; try assumption.
+  destruct (is_editions (f_edition f)) eqn:He; [reflexivity |].
+  destruct (p23_field f He) as [A B]. rewrite A, B. reflexivity.
+Qed.
+
+Ltac field_start f H :=
+  let A1 := fresh "A" in let A2 := fresh "A" in let A3 := fresh "A" in let A4 := fresh "A" in
+  let Hl := fresh "Hl" in let Hm := fresh "Hm" in let Hr := fresh "Hr" in let Hp := fresh "Hp" in
+  let H23 := fresh "H23" in
+  pose proof (field_facts f H) as FF; cbv zeta in FF;
+  destruct FF as (A1 & A2 & A3 & A4 & Hl & Hm & Hr & Hp & H23);
+  clear H.
 
 Theorem cardinality_eq_runtime_lemma : forall f, wf_field f = true -> cardinality f = rt_cardinality f.
 Proof.
-  intros f H. field_facts f H.
-  unfold cardinality, rt_cardinality. rewrite FL.
-  destruct (is_editions (f_edition f)) eqn:He.
-  - unfold_consts. destruct (f_is_ext f); eqb_cases; finish.
-  - destruct (p23_field f He) as [Hd _]. rewrite Hd in *.
-    unfold_consts. destruct (f_is_ext f); eqb_cases; finish.
+  intros f H. field_start f H.
+  unfold cardinality, rt_cardinality. rewrite A. clear A A0 A1 A2 Hm Hp.
+  destruct f as [e lab ty num ext oo p3 pk mm pm ch]; cbn [f_edition f_label f_type f_number f_is_ext f_has_oneof f_p3opt f_packed f_msg_mapentry f_parent_mapentry f_chain] in *.
+  unfold_consts. label_cases lab Hl; cbn [N.eqb Pos.eqb] in *; opaque_eqb; bool_cases.
 Qed.
 
 Lemma is_map_eq_runtime_lemma : forall f, wf_field f = true -> is_map f = rt_is_map f.
 Proof.
-  intros f H. field_facts f H.
-  unfold is_map, rt_is_map, is_map_entry_typed, rt_has_message.
-  unfold_consts. destruct (f_is_ext f), (f_msg_mapentry f); eqb_cases; finish.
+  intros f H. field_start f H.
+  unfold is_map, rt_is_map, is_map_entry_typed, rt_has_message. clear A A0 A1 A2 Hr Hp H23.
+  destruct f as [e lab ty num ext oo p3 pk mm pm ch]; cbn [f_edition f_label f_type f_number f_is_ext f_has_oneof f_p3opt f_packed f_msg_mapentry f_parent_mapentry f_chain] in *.
+  unfold_consts. label_cases lab Hl; cbn [N.eqb Pos.eqb] in *;
+  (split_eqb ty 11; [| split_eqb ty 10]); cbn [N.eqb Pos.eqb] in *; opaque_eqb; bool_cases.
 Qed.
 
 Theorem kind_eq_runtime_lemma : forall f, wf_field f = true -> kind f = rt_kind f.
 Proof.
-  intros f H. pose proof (is_map_eq_runtime_lemma f H) as HM. field_facts f H.
-  unfold kind, rt_kind. rewrite FD, <- HM.
+  intros f H. pose proof (is_map_eq_runtime_lemma f H) as HM. field_start f H.
+  unfold kind, rt_kind. rewrite A1, <- HM. clear HM A A0 A1 A2 Hr Hp.
   unfold is_map, is_map_entry_typed in *.
-  destruct (is_editions (f_edition f)) eqn:He.
-  - unfold_consts.
-    destruct (f_is_ext f), (f_msg_mapentry f), (f_parent_mapentry f); eqb_cases; finish.
-  - destruct (p23_field f He) as [_ Hd]. rewrite Hd in *.
-    unfold_consts.
-    destruct (f_is_ext f), (f_msg_mapentry f), (f_parent_mapentry f); eqb_cases; finish.
+  destruct f as [e lab ty num ext oo p3 pk mm pm ch]; cbn [f_edition f_label f_type f_number f_is_ext f_has_oneof f_p3opt f_packed f_msg_mapentry f_parent_mapentry f_chain] in *.
+  unfold_consts. label_cases lab Hl; cbn [N.eqb Pos.eqb] in *;
+  (split_eqb ty 11; [| split_eqb ty 10]); cbn [N.eqb Pos.eqb] in *;
+  opaque_eqb; bool_cases.
 Qed.
